@@ -8,6 +8,7 @@ package nclient4
 import (
 	"errors"
 	"net"
+	"sync"
 	"time"
 
 	"github.com/insomniacslk/dhcp/dhcpv4"
@@ -27,6 +28,7 @@ type verifWrite struct {
 type verifConn struct {
 	in      chan verifDgram
 	closed  chan struct{}
+	mu      sync.Mutex // a PacketConn may be used from several goroutines
 	isClose bool
 	log     []verifWrite
 }
@@ -48,15 +50,19 @@ func (c *verifConn) ReadFrom(b []byte) (int, net.Addr, error) {
 }
 
 func (c *verifConn) WriteTo(b []byte, a net.Addr) (int, error) {
+	c.mu.Lock()
 	c.log = append(c.log, verifWrite{at: verifNow(), dest: a, data: append([]byte(nil), b...)})
+	c.mu.Unlock()
 	return len(b), nil
 }
 
 func (c *verifConn) Close() error {
+	c.mu.Lock()
 	if !c.isClose {
 		c.isClose = true
 		close(c.closed)
 	}
+	c.mu.Unlock()
 	return nil
 }
 func (c *verifConn) LocalAddr() net.Addr                { return &net.UDPAddr{Port: 68} }
